@@ -361,4 +361,86 @@ FACTORY = Harness(
     stubs=STUBS_COMMON,
 )
 
-HARNESSES = [FAULT, FACTORY, TIME]
+
+# ------------------------------------------------------------------------------ F-again
+def again_params(tier):
+    return [P("phase", 0, 2), P("where", 0, 1), P("runs", 0, 1)]
+
+
+@guard
+def again_fn(a, tier):
+    """The same configuration object used for several start-ups in one process: the configured component fails - and is reported - every time."""
+    phase, where, runs = pick(a["phase"], 3), pick(a["where"], 2), 2 + pick(a["runs"], 2)
+    boom = Boom("configured component fails")
+    log = []
+
+    class Bad(Component):
+        def __init__(self, **kw):
+            log.append("bad created")
+            if phase == 0:
+                raise boom
+
+        async def prepare(self):
+            if phase == 1:
+                raise boom
+
+        async def start(self):
+            if phase == 2:
+                raise boom
+
+    class Good(Component):
+        async def start(self):
+            log.append("good started")
+
+    class Mid(Component):
+        pass
+
+    class Top(Component):
+        async def start(self):
+            log.append("root started")
+
+    if where == 0:
+        config = {"components": {"good": {"type": Good}, "bad": {"type": Bad}}}
+        exp_path = "bad"
+    else:
+        config = {"components": {"good": {"type": Good}, "mid": {"type": Mid, "components": {"bad": {"type": Bad}}}}}
+        exp_path = "mid.bad"
+    outcomes = []
+
+    async def one():
+        async with Context():
+            try:
+                await start_component(Top, config, timeout=1000)
+                outcomes.append(None)
+            except BaseException as e:  # noqa
+                outcomes.append(e)
+
+    for _ in range(runs):
+        _, escaped, _k = run(one)
+        if escaped is not None:
+            return FAIL(f"again:escaped:{type(escaped).__name__}", repr(escaped))
+    summary = {"failing_phase": PHASES[phase], "failing_component_configured_at": exp_path, "start_ups_from_the_same_configuration_object": runs}
+    for n_, e in enumerate(outcomes):
+        if not isinstance(e, ComponentStartError) or (e.phase, e.path, e.component_type) != (PHASES[phase], exp_path, Bad) or e.__cause__ is not boom:
+            return FAIL(f"again:start-up-{n_ + 1}-of-{runs}-from-the-same-config-object:{'returned-normally' if e is None else type(e).__name__}",
+                        f"outcomes={outcomes!r} log={log}", summary)
+    if "root started" in log:
+        return FAIL("again:ancestor-start-ran", log, summary)
+    return OK(summary, True)
+
+
+AGAIN = Harness(
+    prop="C07",
+    name="F-again",
+    fn=again_fn,
+    params=again_params,
+    cube=lambda tier: 0,
+    title="several start-ups from ONE configuration object: the configured failing component is reported every time",
+    bound_text=lambda tier: "a component declared in the external configuration (below the root / below a configured container) fails while being created / prepared / started; "
+    "start_component is called 2-3 times with the same configuration dict",
+    oracle="every start-up raises ComponentStartError(phase, path, class) with the original exception as cause; the root's start() never runs",
+    outside="-",
+    stubs=STUBS_COMMON,
+)
+
+HARNESSES = [FAULT, FACTORY, AGAIN, TIME]
